@@ -14,6 +14,7 @@ type histPlan struct {
 	Ops      []plan.Op `json:"ops"`
 	Identity bool      `json:"identity,omitempty"`
 	Hold     bool      `json:"hold,omitempty"`
+	Env      []string  `json:"env,omitempty"` // additions to the process environment (read by the driver, not by the worker)
 }
 type histResult struct {
 	Outcomes   []plan.Outcome   `json:"outcomes"`
@@ -47,6 +48,7 @@ func NewSolo(e *Env, srcsim string) *Solo {
 func soloOp(op plan.Op) plan.Op {
 	op.Scribble = false
 	op.Cap = 0
+	op.J = 0
 	return op
 }
 
